@@ -1,3 +1,3 @@
 #!/bin/bash
 # nlane.sh <dirs...>: neutral patches one after the other from the second isolated snapshot
-for d in "$@"; do VERIF_HOME=/var/tmp/osv/vsnap2 /verif/tools/try_neutral.py $d 2>&1 | grep -v WARNING | cut -c1-900 >> /var/tmp/osv/neutral.log; done
+for d in "$@"; do VERIF_HOME=/var/tmp/osv/vsnap2 /verif/tools/try_neutral.py $d 2>&1 | grep -v WARNING | cut -c1-900 >> ${NLOG:-/var/tmp/osv/neutral.log}; done
